@@ -360,6 +360,24 @@ def _r3(chk, repo):
 
 def _r4(chk, repo):
     lp = repo.cls(f"{PDE}:LinearPDE")
+    # defaults of the solver slot, as end-of-path state of the constructor: no solver given -> scipy.linalg.solve with NO options (in particular none
+    # that lets LAPACK overwrite the assembled operator, which the PDE object keeps and the user's PDE_form may hand out again)
+    import itertools as _it
+    from .common import method_effects as _me3
+    init = repo.method(lp, "__init__")[1]
+    sp_, kw_ = func_params(init)[2:4]
+    bad = []
+    for ns, nk in _it.product((True, False), repeat=2):
+        val = {_ct(f"{sp_} is None"): ns, _ct(f"{sp_} is not None"): not ns, _ct(f"{kw_} is None"): nk, _ct(f"{kw_} is not None"): not nk}
+        for e in _me3(repo, lp, init, valuation=val):
+            if e["kind"] not in ("fall", "return"):
+                continue
+            if e["stores"].get("self._linalg_solve") != (_ct("scipy.linalg.solve") if ns else sp_):
+                bad.append(f"[solver given={not ns}] solver slot is `{e['stores'].get('self._linalg_solve')}`")
+            if e["stores"].get("self._linalg_solve_kwargs") not in ((_ct("{}"), _ct("dict()")) if nk else (kw_,)):
+                bad.append(f"[options given={not nk}] solver options are `{e['stores'].get('self._linalg_solve_kwargs')}`, expected {'none' if nk else 'the given ones'}")
+    chk.add("C18-R4", f"{lp.qual}.__init__/defaults", not bad, site(repo, init), "default solver scipy.linalg.solve without options",
+            "; ".join(sorted(set(bad))) + ": default options are passed to every solve (an `overwrite_a` default lets LAPACK destroy the stored operator)", init)
     fn = repo.method(lp, "_solve_linear_system")[1]
     A, b, solve, kw = func_params(fn)[1:5]
     from .common import canon_fn
